@@ -135,6 +135,8 @@ func errClass(err error) string {
 		return "err=sleepfirst"
 	case strings.Contains(m, "not found"):
 		return "err=notfound"
+	case strings.Contains(m, "a scenario may hold at most"):
+		return "err=toomany"
 	}
 	return "err=other:" + esc(m)
 }
